@@ -25,7 +25,7 @@ def work(*parts):
 # ------------------------------------------------------------------------------------------------
 # direction A for expression cases: MC_Ref enumerates trees x renderings (and proves the reference
 # lemmas on each), the recorder replays them, Judge_Expr decides everything that is not identical.
-def mcref_replay(v, pid, runs, entries, nshards=16):
+def mcref_replay(v, pid, runs, entries, nshards=16, sample_every=0):
     """runs: list of dict(table, n, maxun, wc).  Returns (total cases, forwarded obs paths)."""
     jobs = []
     for r in runs:
@@ -38,7 +38,7 @@ def mcref_replay(v, pid, runs, entries, nshards=16):
                             "FullText": r["n"] <= 2},
                       invariants=["TokLemma", "OneLemma", "TextLemma", "EmitCases"])
             jobs.append(lambda tag=tag, cfg=cfg: (tag,) + pipeline.gen_replay_shard(
-                "MC_Ref", cfg, tag, ["expr", "--entries", ",".join(entries)]))
+                "MC_Ref", cfg, tag, ["expr", "--entries", ",".join(entries), "--sample-every", str(sample_every)]))
     results = parallel(jobs)
     obs, ncases, nruns, nident = [], 0, 0, 0
     for tag, res, summ, obsp in results:
@@ -125,8 +125,8 @@ def flat_model(v, pid, tier, invariants):
                    f"compile refines the reference on {n} trees x 5 renderings (+ one redundant pair at every node)")
 
 
-def expr_dir_a(v, pid, tier, entries, what):
-    ncases, nruns, nident, obs = mcref_replay(v, pid, expr_runs(tier), entries)
+def expr_dir_a(v, pid, tier, entries, what, sample_every=0):
+    ncases, nruns, nident, obs = mcref_replay(v, pid, expr_runs(tier), entries, sample_every=sample_every)
     v.cov["traces_validated_against_impl"] += nruns
     v.cov["evaluations"] += nruns
     v.notes.append(f"direction A: {ncases} TLC-enumerated (tree, rendering) cases replayed through {entries}; "
@@ -145,11 +145,62 @@ def expr_dir_a(v, pid, tier, entries, what):
     v.cov["exhaustive"] = True
 
 
+def expr_dir_b(v, pid, tier, entries, what, families=("mixed", "nested")):
+    """Direction B: seeded random tables and big expressions, every record judged by TLC from its text."""
+    nstreams = 8 if tier == "quick" else 16
+    per = {"mixed": 24 if tier == "quick" else 150, "nested": 6 if tier == "quick" else 40,
+           "soup": 1500 if tier == "quick" else 20000, "mutant": 1500 if tier == "quick" else 20000}
+    hi = 140 if tier == "quick" else 300
+    jobs = []
+    for fam in families:
+        for k in range(nstreams):
+            tag = f"{pid}/fuzz-{fam}-{k}"
+            jobs.append(lambda tag=tag, fam=fam, k=k: (tag,) + pipeline.fuzz_replay(
+                tag, ["fuzz-expr", "--family", fam, "--n", str(per[fam]), "--stream", str(k), "--max-operands", str(hi)],
+                ["--forward-all", "--entries", ",".join(entries)]))
+    res = parallel(jobs)
+    ncases = 0
+    jj = []
+    for tag, summ, obsp in res:
+        if summ.get("crashed"):
+            v.violation({"pipeline": tag, "detail": summ}, f"{what}: the library aborted the recorder process in {tag}")
+            continue
+        ncases += summ["cases"]
+        v.cov["traces_validated_against_impl"] += summ["runs"]
+        v.cov["evaluations"] += summ["runs"]
+        jj.append((tag, obsp))
+    # judge every stream (TLC recomputes lexing, parsing and the AC normal form from the recorded text)
+    jres = parallel([(lambda t=t, p=p: (p, pipeline.judge_expr(p, t.replace("/", "-")))) for t, p in jj], 8)
+    nbad = 0
+    for p, (r, verdicts) in jres:
+        v.add_tlc(r, f"Judge_Expr[{os.path.basename(p)}]")
+        recs = None
+        for case, (cls, verdict, entry) in verdicts.items():
+            if verdict == "ok":
+                continue
+            if recs is None:
+                recs = {}
+                for line in open(p):
+                    q = json.loads(line)
+                    if "case" in q:
+                        recs[q["case"]] = q
+            nbad += 1
+            q = recs.get(case, {})
+            text = vlib.uncps(q.get("text", []))
+            v.violation({"text": text, "class": cls, "entry": entry, "record": q},
+                        f"{what}: random text `{text[:200]}` ({cls}) entry {entry}: {verdict}")
+    v.notes.append(f"direction B: {ncases} seeded random texts, families {list(families)} (big expressions up to {hi} operands, "
+                   f"0-40 variables, nesting to 100, token soup, mutated texts; random tables with priority ties) "
+                   f"through {entries}, every record judged by Judge_Expr")
+    return ncases
+
+
 @register("C01")
 def c01(a):
     v = Verdict("C01", a.tier, "model_checking")
     flat_model(v, "C01", a.tier, ["Refines", "RefinesOne"])
     expr_dir_a(v, "C01", a.tier, ["flat", "flat_wo"], "evaluation differs from the documented semantics")
+    expr_dir_b(v, "C01", a.tier, ["flat", "flat_wo"], "evaluation differs from the documented semantics")
     v.assumptions += ["decided for the free term algebra; other data types are homomorphic images because the "
                       "generic code touches T only through Clone, Default, FromStr and the supplied fn pointers",
                       "tracker abstracted to an alive vector in FlatImpl (bit level: Tracker.tla, C14)"]
@@ -160,6 +211,33 @@ def c01(a):
 def c02(a):
     v = Verdict("C02", a.tier, "model_checking")
     flat_model(v, "C02", a.tier, ["Refines", "Shrinks"])
-    expr_dir_a(v, "C02", a.tier, ["flat", "flat_wo", "flat_re", "flat_wo_re", "deep"],
-               "folded/unfolded/re-folded/deep expressions differ from the reference")
+    deep_model(v, "C02", a.tier, ["DeepRefines"])
+    ents = ["flat", "flat_wo", "flat_re", "flat_wo_re", "deep"]
+    expr_dir_a(v, "C02", a.tier, ents, "folded/unfolded/re-folded/deep expressions differ from the reference")
+    expr_dir_b(v, "C02", a.tier, ents, "folded/unfolded/re-folded/deep expressions differ from the reference",
+               families=("mixed", "soup", "mutant"))
+    return v.finish()
+
+
+def deep_model(v, pid, tier, invariants):
+    n = 0
+    for r in model_runs(tier):
+        n += mc_shards(v, "MC_Deep", {"T": ("<-", r["table"]), "NLeaves": r["n"], "MaxUn": r["maxun"],
+                                      "WithConst": r.get("wc", True), "BumpGuard": True, "DeclineEq": True},
+                       invariants, r["ns"], f"{pid}/mcdeep-{r['table']}-n{r['n']}")
+    v.notes.append(f"MC_Deep: implementation-shaped model of the deep parser, DeepEx::compile (lift_nodes, decline mask), "
+                   f"flatten_vecs and flatex_to_deepex refines the reference on {n} trees x renderings ({invariants})")
+
+
+@register("C03")
+def c03(a):
+    v = Verdict("C03", a.tier, "model_checking")
+    deep_model(v, "C03", a.tier, ["DeepRefines", "FlattenRefines", "DeepenRefines"])
+    ents = ["flat", "deep", "f2d", "fwo2d", "d2f", "f2d2f", "d2f2d"]
+    what = "flat and deep forms are not interchangeable"
+    expr_dir_a(v, "C03", a.tier, ents, what, sample_every=6)
+    expr_dir_b(v, "C03", a.tier, ents, what, families=("mixed", "nested", "soup", "mutant"))
+    v.notes.append("operator listings (sorted, duplicate-free, applied-to-variable subset, subset of the text, flat = deep "
+                   "without constant sub-expressions) are judged on every forwarded record; direction A forwards a record "
+                   "only if some value or variable list is not identical to the TLC expectation")
     return v.finish()
